@@ -15,6 +15,7 @@ import (
 	"reflect"
 	"sort"
 	"strings"
+	"sync"
 	"time"
 
 	"github.com/deckhouse/deckhouse/pkg/log"
@@ -41,6 +42,29 @@ type nsWorld struct {
 	nsMatch map[string]bool // cluster side
 	realNs  map[string]bool // Namespace objects present in the fake cluster
 	phase   string
+	mu      sync.Mutex
+	view    map[string]string // what a hook knows: the Synchronization view + the Events passed on since (nil: not synchronized yet)
+}
+
+// onEvent is the monitor's event callback: it applies the event to the hook's view (C01: the view must follow the cluster).
+func (w *nsWorld) onEvent(ev kemtypes.KubeEvent) {
+	w.mu.Lock()
+	defer w.mu.Unlock()
+	if w.view == nil {
+		return
+	}
+	for k, o := range ev.Objects {
+		if o.Object == nil || strings.HasPrefix(o.Object.GetName(), "zz-probe-") {
+			continue
+		}
+		key := o.Object.GetNamespace() + "/" + o.Object.GetName()
+		if k < len(ev.WatchEvents) && ev.WatchEvents[k] == kemtypes.WatchEventDeleted {
+			delete(w.view, key)
+		} else {
+			d, _, _ := unstructured.NestedString(o.Object.Object, "data", "v")
+			w.view[key] = d
+		}
+	}
 }
 
 func nsObject(n string) *corev1.Namespace {
@@ -65,7 +89,10 @@ func (w *nsWorld) newMonitor() {
 	cfg.WithNamespaceSelector(&kemtypes.NamespaceSelector{
 		LabelSelector: &metav1.LabelSelector{MatchLabels: map[string]string{"w": "1"}},
 	})
-	w.vm = kem.VerifNewMonitor(w.ctx, w.fc.Client, w.ms, cfg, func(kemtypes.KubeEvent) {})
+	w.mu.Lock()
+	w.view = nil
+	w.mu.Unlock()
+	w.vm = kem.VerifNewMonitor(w.ctx, w.fc.Client, w.ms, cfg, w.onEvent)
 	w.phase = "none"
 }
 
@@ -283,6 +310,16 @@ func replayNsCase(n int, c Case, ms *metricstorage.MetricStorage) Result {
 			}
 			w.vm.Monitor().Start(w.ctx)
 			w.phase = "started"
+			// as the operator does after the Synchronization: the hook has seen the snapshot, events are passed on from now
+			w.mu.Lock()
+			w.view = map[string]string{}
+			for _, it := range w.snapshot() {
+				if !strings.Contains(it.key, "/zz-probe-") {
+					w.view[it.key] = it.val
+				}
+			}
+			w.mu.Unlock()
+			w.vm.Monitor().EnableKubeEventCb()
 			// the namespace informer reports every namespace it lists: wait until the monitor has informers for them
 			want := []string{}
 			for _, n := range nsAll {
@@ -333,6 +370,14 @@ func replayNsCase(n int, c Case, ms *metricstorage.MetricStorage) Result {
 					w.vm.NsDelete(nsObject(ns))
 				}
 				delete(stale, ns)
+				// the namespace is out of the binding's scope: what the hook knew about it is not compared any more
+				w.mu.Lock()
+				for k := range w.view {
+					if strings.HasPrefix(k, ns+"/") {
+						delete(w.view, k)
+					}
+				}
+				w.mu.Unlock()
 			}
 			after := w.vm.Namespaces()
 			if kind == "add" && strings.Join(after, ",") != before {
@@ -376,6 +421,36 @@ func replayNsCase(n int, c Case, ms *metricstorage.MetricStorage) Result {
 				clusterAsIs[k] = v
 			}
 		}
+		// C01: the Synchronization view plus the events passed on since reproduce the matching objects of the cluster
+		viewOracle := func() (string, string) {
+			var view map[string]string
+			deadline := time.Now().Add(1500 * time.Millisecond)
+			for {
+				view = map[string]string{}
+				w.mu.Lock()
+				for k, v := range w.view {
+					ns := strings.SplitN(k, "/", 2)[0]
+					if isStatic(ns) || w.nsMatch[ns] {
+						view[k] = v
+					}
+				}
+				w.mu.Unlock()
+				if reflect.DeepEqual(view, cluster) || time.Now().After(deadline) {
+					break
+				}
+				time.Sleep(300 * time.Microsecond)
+			}
+			if !reflect.DeepEqual(view, cluster) {
+				return "C01/label-selected-namespaces/events-do-not-reproduce-the-cluster", fmt.Sprintf("Synchronization view + the events passed on give %v, the matching objects of the cluster are %v (quiet after %v)", view, cluster, a)
+			}
+			return "", ""
+		}
+		badQ := func(sig, d string) Result {
+			if sg, d2 := viewOracle(); sg != "" {
+				res.Also = []Also{{sg, d2}}
+			}
+			return bad(i, sig, d)
+		}
 		var snap []snapItem
 		deadline := time.Now().Add(1500 * time.Millisecond)
 		for {
@@ -393,13 +468,13 @@ func replayNsCase(n int, c Case, ms *metricstorage.MetricStorage) Result {
 		keys := []string{}
 		for _, s := range snap {
 			if _, dup := got[s.key]; dup {
-				return bad(i, "C02/duplicate-object", fmt.Sprintf("object %s appears twice in the snapshot", s.key))
+				return badQ("C02/duplicate-object", fmt.Sprintf("object %s appears twice in the snapshot", s.key))
 			}
 			got[s.key] = s.val
 			keys = append(keys, s.key)
 		}
 		if !sort.StringsAreSorted(keys) {
-			return bad(i, "C02/order", fmt.Sprintf("snapshot order %v is not by namespace and name (static and label-selected namespaces)", keys))
+			return badQ("C02/order", fmt.Sprintf("snapshot order %v is not by namespace and name (static and label-selected namespaces)", keys))
 		}
 		if !reflect.DeepEqual(got, cluster) {
 			gone := map[string]bool{}
@@ -412,12 +487,15 @@ func replayNsCase(n int, c Case, ms *metricstorage.MetricStorage) Result {
 				}
 			}
 			if len(gone) > 0 && window && reflect.DeepEqual(got, clusterAsIs) {
-				return bad(i, "C02/namespace-unmatched-between-AddMonitor-and-StartMonitor", fmt.Sprintf("snapshot %v shows objects of %v: the namespace was listed by AddMonitor and lost its label (or was deleted) before StartMonitor; the namespace informer never knew it, so its informers are never stopped; matching objects %v", got, keysOf(gone), cluster))
+				return badQ("C02/namespace-unmatched-between-AddMonitor-and-StartMonitor", fmt.Sprintf("snapshot %v shows objects of %v: the namespace was listed by AddMonitor and lost its label (or was deleted) before StartMonitor; the namespace informer never knew it, so its informers are never stopped; matching objects %v", got, keysOf(gone), cluster))
 			}
 			if len(gone) > 0 {
-				return bad(i, "C02/objects-of-a-namespace-that-no-longer-matches", fmt.Sprintf("snapshot %v shows objects of %v, which does not carry the label any more; matching objects %v (quiet after %v)", got, keysOf(gone), cluster, a))
+				return badQ("C02/objects-of-a-namespace-that-no-longer-matches", fmt.Sprintf("snapshot %v shows objects of %v, which does not carry the label any more; matching objects %v (quiet after %v)", got, keysOf(gone), cluster, a))
 			}
-			return bad(i, "C02/snapshot-differs-from-cluster", fmt.Sprintf("snapshot %v, matching objects of the cluster %v (quiet after %v)", got, cluster, a))
+			return badQ("C02/snapshot-differs-from-cluster", fmt.Sprintf("snapshot %v, matching objects of the cluster %v (quiet after %v)", got, cluster, a))
+		}
+		if sg, d := viewOracle(); sg != "" {
+			return bad(i, sg, d)
 		}
 		if divSig != "" {
 			continue
@@ -428,7 +506,8 @@ func replayNsCase(n int, c Case, ms *metricstorage.MetricStorage) Result {
 		known := strSet(st["known"])
 		have := w.vm.Namespaces()
 		if len(have) != len(known) {
-			return bad(i, "DIV/known-namespaces", fmt.Sprintf("the monitor has informers for %v, specification %v", have, st["known"]))
+			// not a verdict by itself: go on, objects that appear in such a namespace will show at a later quiet point
+			divStep, divSig, divDetail = i, "DIV/known-namespaces", fmt.Sprintf("the monitor has informers for %v, specification %v", have, st["known"])
 		}
 	}
 	if divSig != "" {
